@@ -65,7 +65,7 @@ CHECKS.update({
             "DESIGN.md §3 C09"),
     "C18": ("SR", SR_TECH,
             "PARTIAL (hash-seed leg not solver-decided). Bounded solver-checked: for histories of <=3 calls from {model_matrix, spec reuse, unmaterialized-spec use, Formula method} x {D1, D2} over shared formula/spec objects with symbolic data, each call's result equals, cell by cell for all values, the same call made first on fresh objects; input arrays, frames, formula and every previously obtained spec's state are unchanged after every call.",
-            "PYTHONHASHSEED is a per-process constant of the C runtime and cannot be a symbolic variable: a native companion re-runs a fixed battery under several seeds in subprocesses and compares the serialised results (labelled ground; not solver-decided). 7 formulas, 7 rows, histories <= 3.",
+            "PYTHONHASHSEED is a per-process constant of the C runtime and cannot be a symbolic variable: a native companion re-runs a fixed battery under several seeds in subprocesses and compares the serialised results (labelled ground; not solver-decided). 10 formulas + generated ones, 7 rows, histories <= 3 over 10 operations (incl. re-used materializer objects); recorded state keys compared; a native leg runs histories with raw float64 context arrays (incl. lag).",
             "DESIGN.md §3 C18"),
     "C20": ("SR+CH", SR_TECH + "; term-level structure by CrossHair enumeration of factor subsets / wrt tuples",
             "Bounded solver-checked: for term families (<=3 terms from a 12-term multilinear menu incl. categorical interactions and literal scalings) and wrt tuples of <=2 variables, every non-zero derivative term's materialised columns equal the iterated finite difference of the original term's columns for ALL data and ALL steps h != 0, zero derivatives have identically vanishing differences, and the number/order of terms is preserved.",
